@@ -1074,6 +1074,7 @@ class _Abstraction(object):
         self.fresh = {}       # id of rebuilt nonlinear node -> (constant, node)
         self.top = {}         # id of original hypothesis -> (abstracted simplified hypothesis, original)
         self.lemmas = []      # sound sign facts about the named products / quotients (keep the query linear)
+        self.keep = []
 
     @staticmethod
     def sign_lemmas(x, ch, v):
@@ -1110,6 +1111,22 @@ class _Abstraction(object):
             return hit[0]
         if z3.is_quantifier(x) or z3.is_var(x) or not z3.is_app(x) or x.num_args() == 0:
             r = x
+        elif self.nl(x) and z3.is_app_of(x, z3.Z3_OP_MUL) and any(z3.is_app_of(c, z3.Z3_OP_ITE) for c in x.children()) \
+                and sum(1 for c in x.children() if z3.is_app_of(c, z3.Z3_OP_ITE)) <= 3:
+            # lift if-then-else out of products:  ite(c, a, b) * d  ->  ite(c, a*d, b*d)   (then simplify and abstract again)
+            cs = x.children()
+            k = [i for i, c in enumerate(cs) if z3.is_app_of(c, z3.Z3_OP_ITE)][0]
+            cond, a, b = cs[k].children()
+            rest = cs[:k] + cs[k + 1:]
+
+            def prod(h):
+                p = h
+                for t in rest:
+                    p = p * t
+                return p
+            lifted = z3.simplify(z3.If(cond, prod(a), prod(b)), som=True)
+            self.keep.append(lifted)
+            r = self.go(lifted)
         else:
             ch = [self.go(c) for c in x.children()]
             y = x.decl()(*ch)
